@@ -409,6 +409,16 @@ class Parser:
     ) -> Expression:
         tok = stream.next_token()
         precedence = self.PRECEDENCES.get(tok.type_, self.PRECEDENCE_LOWEST)
+
+        if (
+            self.BINARY_OPERATORS.get(tok.type_) in self.COMPARISON_OPERATORS
+            and stream.current.type_ in (TokenType.LPAREN, TokenType.NOT)
+        ):
+            # A comparison operand is never parenthesized or negated.
+            raise JSONPathSyntaxError(
+                f"unexpected {stream.current.value!r}", token=stream.current
+            )
+
         right = self.parse_filter_expression(stream, precedence)
         operator = self.BINARY_OPERATORS[tok.type_]
 
@@ -436,6 +446,12 @@ class Parser:
 
         stream.expect(TokenType.RPAREN)
         self._raise_for_uncompared(expr)
+
+        if self.BINARY_OPERATORS.get(stream.peek.type_) in self.COMPARISON_OPERATORS:
+            raise JSONPathSyntaxError(
+                "a parenthesized expression is not comparable", token=stream.peek
+            )
+
         return expr
 
     def parse_root_query(self, stream: TokenStream) -> Expression:
@@ -695,6 +711,11 @@ class Parser:
     def _raise_for_non_comparable_function(
         self, expr: Expression, token: Token
     ) -> None:
+        if not isinstance(
+            expr, (FilterExpressionLiteral, FilterQuery, FunctionExtension)
+        ):
+            raise JSONPathSyntaxError("expression is not comparable", token=token)
+
         if isinstance(expr, FilterQuery) and not expr.query.singular_query():
             raise JSONPathTypeError("non-singular query is not comparable", token=token)
 
